@@ -404,7 +404,7 @@ func gen(g *hx.Gen) {
 	// capacities): a hub of degree n-1 and a thin random graph, in a random provenance
 	thr := []int{127, 128, 129}
 	if g.Thorough() {
-		thr = append(thr, 255, 256, 257, 511, 513)
+		thr = append(thr, 255, 256, 257) // larger sizes cost the list-indexed model seconds per case
 	}
 	for _, n := range thr {
 		var star []edge
